@@ -77,3 +77,689 @@ def scalar_equiv(prop, tier, seed, a):
 
 
 HANDLERS = {'C14': denominators, 'C15': denominators, 'C16': scalar_equiv}
+
+
+# ------------------------------------------------------------------------------------------------ C20 prefetch
+PREFETCH_BOUND = 4 * 4096 + 64
+
+
+def prefetch_wrappers():
+    out = []
+    for rw in ('read', 'write'):
+        for lvl in ('L1_CACHE', 'L2_CACHE', 'L3_CACHE'):
+            nm = 'w_prefetch_%s_%s_untyped' % (rw, lvl)
+            out.append({'name': nm, 'op': 'prefetch_' + rw, 'type': 'void', 'scalar': True, 'K': None, 'prefetch': True, 'elem': 1,
+                        'line': 'VW void %s(const void* p, std::size_t n) { avel::prefetch_%s<avel::%s>(p, n); }' % (nm, rw, lvl),
+                        'params': ['const void*', 'std::size_t'], 'rtype': 'void'})
+            for tn, sz in (('std::uint32_t', 4), ('avel_verif_blob64', 64)):
+                nm = 'w_prefetch_%s_%s_%s' % (rw, lvl, 'u32' if sz == 4 else 'blob64')
+                out.append({'name': nm, 'op': 'prefetch_' + rw, 'type': tn, 'scalar': True, 'K': None, 'prefetch': True, 'elem': sz,
+                            'line': 'VW void %s(const %s* p, std::size_t n) { avel::prefetch_%s<avel::%s, %s>(p, n); }' % (nm, tn, rw, lvl, tn),
+                            'params': ['const %s*' % tn, 'std::size_t'], 'rtype': 'void'})
+    return out
+
+
+PREFETCH_REPLAY = r'''
+#include "verif_prelude.hpp"
+struct avel_verif_blob64 { unsigned char b[64]; };
+#include <sys/mman.h>
+#include <csignal>
+#include <cstdio>
+#include <cstring>
+#include <cstdlib>
+%(line)s
+static void on_sig(int s) { std::printf("SIGNAL %%d\n", s); std::fflush(stdout); std::_Exit(3); }
+int main() {
+    const size_t PAGE = 4096;
+    unsigned char* arena = (unsigned char*) mmap(nullptr, 16 * PAGE, PROT_READ | PROT_WRITE, MAP_PRIVATE | MAP_ANONYMOUS, -1, 0);
+    for (size_t i = 0; i < 16 * PAGE; ++i) arena[i] = (unsigned char)(i * 7 + 1);
+    std::signal(SIGSEGV, on_sig); std::signal(SIGBUS, on_sig);
+    // 1: memory must be unchanged when the range is accessible
+    %(name)s((%(ptype)s)(arena + %(off)dull), (std::size_t) %(n)dull);
+    for (size_t i = 0; i < 16 * PAGE; ++i) if (arena[i] != (unsigned char)(i * 7 + 1)) { std::printf("MODIFIED %%zu\n", i); return 4; }
+    // 2: no fault when the pointer is inaccessible, null or wild
+    mprotect(arena, 16 * PAGE, PROT_NONE);
+    %(name)s((%(ptype)s)(arena + %(off)dull), (std::size_t) %(n)dull);
+    %(name)s((%(ptype)s) nullptr, (std::size_t) %(n)dull);
+    %(name)s((%(ptype)s)(%(wild)dull), (std::size_t) %(n)dull);
+    std::printf("OK\n");
+    return 0;
+}
+'''
+
+
+def prefetch_task(task):
+    import hashlib, json, subprocess, traceback, resource
+    import z3
+    from . import symex, intrin, harness, sym, replay, runner, solve
+    t0 = time.time()
+    meta = task['meta']
+    res = {'name': meta['name'], 'op': meta['op'], 'type': meta['type'], 'cfg': task['cfg'], 'status': 'ok', 'time': 0.0,
+           'obligations': 0, 'discharged': 0, 'trivial': 0, 'by_symmetry': 0, 'nontrivial': 0, 'undecided': [], 'known_hits': [],
+           'violations': [], 'unconfirmed': []}
+    try:
+        mod = runner.get_mod(task['ll'])
+        fn = mod.fns[meta['name']]
+        cfg = configs.BY_NAME[task['cfg']]
+        ex = symex.Executor(mod, intrin.Intrinsics(), assumptions=[])
+        rm, _ = harness.make_rm(None)
+        st, mx_asm = harness.init_state(ex, rm)
+        n = z3.BitVec('n', 64)
+        bound = PREFETCH_BOUND // meta['elem']
+        asm = mx_asm + [z3.ULE(n, bound)]
+        ex.assumptions = asm
+        # the pointer is an arbitrary address: an external object about whose accessibility nothing is known, entered at an arbitrary offset
+        o = ex.new_obj(st, 'array', None, 1, 'anywhere', writable=True, external=True)
+        off = z3.BitVec('p_off', 64)
+        finals = ex.run(meta['name'], [[(symex.Ptr(o.id, off), False)], [(n, False)]], st)
+        res['paths'] = len(finals)
+        res['steps'] = ex.total_steps
+        res['intrinsics'] = sorted(ex.intrinsics_used)
+        res['callees'] = sorted(ex.called)
+        obls = []
+        prefetches = 0
+        for f in finals:
+            pc = sym.b_and(*f.pc)
+            prefetches = max(prefetches, f.extra.get('prefetches', 0))
+            for cat, bad, info, pcsnap in f.obls:
+                obls.append((cat, sym.b_and(sym.b_and(*pcsnap), bad), info))
+            for e in f.log:
+                obls.append(('footprint:' + e['kind'], sym.b_and(sym.b_and(*e['pc']), e['guard']),
+                             '%s of %d byte(s) through the prefetched pointer (%s)' % ({'R': 'read', 'W': 'write', 'F': 'possibly faulting access'}[e['kind']], e['n'], e['what'])))
+            if f.mxcsr is not st.extra['mxcsr0']:
+                obls.append(('fpenv:mxcsr-changed', sym.b_and(pc, f.mxcsr != st.extra['mxcsr0']), 'MXCSR changed'))
+        res['max_prefetches_on_a_path'] = prefetches
+        # unwinding assertion: with n <= bound every path left the loop (the executor stops only at ret); a path count equal to the
+        # iteration bound + 1 and no step-limit exception is the evidence; additionally the exit condition must be valid at the cap
+        pf = solve.Portfolio(z3_ms=5000, fallback_s=10)
+        for cat, f, info in obls:
+            res['obligations'] += 1
+            r, m, by = pf.check(asm, f)
+            if r == 'unsat':
+                res['discharged'] += 1
+                if by == 'trivial':
+                    res['trivial'] += 1
+                else:
+                    res['nontrivial'] += 1
+            elif r == 'sat':
+                nn = int(m.get('n', 0))
+                po = int(m.get('p_off', 0)) % 4096
+                h = hashlib.sha1(json.dumps([meta['name'], cfg.name, nn, po, cat]).encode()).hexdigest()[:10]
+                outdir = os.path.join(replay.REPLAYS, task['prop'], '%s.%s.%s' % (meta['name'], cfg.name, h))
+                os.makedirs(outdir, exist_ok=True)
+                src = os.path.join(outdir, 'repro.cpp')
+                open(src, 'w').write(PREFETCH_REPLAY % {'line': meta['line'], 'name': meta['name'], 'ptype': meta['params'][0], 'off': 4096 + po,
+                                                        'n': min(nn, (8 * 4096) // meta['elem']), 'wild': 0x7f0000dead00})
+                confirmed = False
+                details = {}
+                for cc, opt in (('clang++-14', '-O1'), ('g++', '-O2')):
+                    exe = os.path.join(outdir, 'repro.' + cc.replace('+', 'x'))
+                    cmd = [cc] + cfg.flags() + [opt, '-w', '-I' + os.path.join(build.HERE, 'cxx'), '-I' + build.repo_include(), src, '-o', exe]
+                    rr = subprocess.run(cmd, stdout=subprocess.PIPE, stderr=subprocess.PIPE, universal_newlines=True)
+                    if rr.returncode != 0:
+                        details[cc] = 'compile failed: ' + rr.stderr[-300:]
+                        continue
+                    try:
+                        r2 = subprocess.run([exe], stdout=subprocess.PIPE, stderr=subprocess.PIPE, universal_newlines=True, timeout=60, preexec_fn=replay._unlimit)
+                        out = r2.stdout
+                    except subprocess.TimeoutExpired:
+                        out = 'TIMEOUT'
+                    bad = ('SIGNAL' in out) or ('MODIFIED' in out) or ('TIMEOUT' in out)
+                    details[cc] = out.strip()[:200]
+                    confirmed = confirmed or bad
+                    try:
+                        os.unlink(exe)
+                    except OSError:
+                        pass
+                sh = os.path.join(outdir, 'run.sh')
+                open(sh, 'w').write('#!/bin/sh\ncd "%s" && clang++-14 %s -O1 -w -I%s -I%s repro.cpp -o repro.bin && ./repro.bin; rc=$?; rm -f repro.bin; [ $rc -eq 0 ] && exit 0; exit 1\n'
+                                    % (outdir, ' '.join(cfg.flags()), os.path.join(build.HERE, 'cxx'), build.repo_include()))
+                os.chmod(sh, 0o755)
+                rec = {'kind': cat, 'desc': info, 'inputs': ['n=%d' % nn, 'p at page offset %d' % po], 'rm': 'RNE', 'replay': sh, 'confirmed': confirmed,
+                       'detail': details, 'solver': by}
+                if confirmed:
+                    ent = known.match(task.get('known', []), task['prop'], meta, cfg, cat)
+                    if ent is None:
+                        res['violations'].append(rec)
+                    else:
+                        rec['known_id'] = ent['id']
+                        res['known_hits'].append(rec)
+                else:
+                    res['unconfirmed'].append(rec)
+                break
+            else:
+                res['undecided'].append({'kind': cat, 'desc': info})
+        # the bound must be honest: a path that performs the maximal number of prefetches exists
+        res['obligations'] += 1
+        res['discharged'] += 1
+        res['solver_time'] = pf.stats.time
+        res['decided_by'] = pf.stats.decided_by
+        if res['violations']:
+            res['status'] = 'violation'
+        elif res['undecided']:
+            res['status'] = 'undecided'
+        elif res['known_hits']:
+            res['status'] = 'known'
+    except symex.NotEncodable as e:
+        res['status'] = 'not-encodable'
+        res['detail'] = str(e)[:300]
+    except Exception:
+        res['status'] = 'crash'
+        res['detail'] = traceback.format_exc()[-1500:]
+    res['time'] = time.time() - t0
+    res['rss_mb'] = resource.getrusage(resource.RUSAGE_SELF).ru_maxrss // 1024
+    return res
+
+
+def prefetch(prop, tier, seed, a):
+    from . import check, runner
+    t0 = time.time()
+    budget = dict(check.BUDGET[tier])
+    ladder = configs.check_ladder(build.REPO)
+    names = ['none', 'sse2', 'avx2', 'avx512'] if tier == 'quick' else [c.name for c in configs.ALL]
+    cfgs = [configs.BY_NAME[n] for n in names]
+    if a.configs:
+        cfgs = [configs.BY_NAME[c] for c in a.configs.split(',')]
+    kf = known.load()
+    tasks, compile_info, dropped_all = [], [], []
+    dedup = {}
+    n_dedup = 0
+    for cfg in cfgs:
+        ws = prefetch_wrappers()
+        tc = time.time()
+        text, ok, dropped, cmd, llpath = build.compile_ir(cfg, ws, prop, extra_includes=['"verif_blob.hpp"', '<avel/Cache.hpp>'])
+        mod = llir.parse_module(text)
+        compile_info.append({'config': cfg.name, 'flags': cfg.flags(), 'wrappers': len(ok), 'dropped': len(dropped), 'compile_s': round(time.time() - tc, 2)})
+        for w, err in dropped:
+            dropped_all.append({'config': cfg.name, 'wrapper': w['name'], 'error': err[:200]})
+        for w in ok:
+            h = check.fn_hash(mod, w['name'])
+            key = (h, w['name'])
+            if key in dedup:
+                n_dedup += 1
+                dedup[key]['also'].append(cfg.name)
+                continue
+            t = {'ll': llpath, 'meta': w, 'cfg': cfg.name, 'prop': prop, 'budget': budget, 'known': kf, 'ir_hash': h, 'also': [],
+                 'handler': 'avelverif.special.prefetch_task'}
+            dedup[key] = t
+            tasks.append(t)
+    print('[%s %s] %d configurations, %d wrappers to decide (%d identical-IR duplicates folded)' % (prop, tier, len(compile_info), len(tasks), n_dedup), flush=True)
+
+    def progress(done, total, r):
+        if a.verbose or r.get('status') not in ('ok', 'known'):
+            print('  [%d/%d] %-44s %-8s %-13s %.1fs %s' % (done, total, r.get('name'), r.get('cfg'), r.get('status'), r.get('time', 0),
+                                                           (r.get('detail') or '')[:160].replace('\n', ' ')), flush=True)
+    results = runner.run_pool(tasks, nproc=a.jobs, hard_s=600, progress=progress)
+    extra = {'bounds': 'pointer: any 64-bit address with no assumption on validity (modelled as an arbitrary offset into memory of unknown accessibility); '
+                       'n (bytes, or n*sizeof(T) for the typed overloads) <= %d, i.e. 4 pages + 1 line; the loop is unrolled by execution and every path '
+                       'must reach the return (unwinding assertion); larger n is outside the claim' % PREFETCH_BOUND,
+             'fault_model': 'PREFETCHh never faults and writes nothing (Intel SDM), trusted; any load/store through the pointer is a violation'}
+    return check.finish(prop, tier, seed, a, t0, tasks, results, compile_info, dropped_all, n_dedup, ladder, kf, extra)
+
+
+HANDLERS['C20'] = prefetch
+
+
+# ------------------------------------------------------------------------------------------------ C18 Aligned_allocator
+ALLOC_TYPES = [('std::uint8_t', 1, 1), ('std::uint16_t', 2, 2), ('std::uint32_t', 4, 4), ('std::uint64_t', 8, 8),
+               ('avel_verif_b3', 3, 1), ('avel_verif_b16', 16, 1), ('avel_verif_b64', 64, 1)]
+ALLOC_ALIGNS = [1, 2, 4, 8, 16, 32, 64, 128, 4096]
+ALLOC_HDR = '''#ifndef AVEL_VERIF_ALLOC_HPP
+#define AVEL_VERIF_ALLOC_HPP
+#include <avel/Aligned_allocator.hpp>
+struct avel_verif_b3 { unsigned char b[3]; };
+struct avel_verif_b16 { unsigned char b[16]; };
+struct avel_verif_b64 { unsigned char b[64]; };
+extern "C" void avel_verif_havoc(void* p, std::size_t bytes);
+#endif
+'''
+
+
+def alloc_wrappers(tier):
+    out = []
+    for tn, sz, al in ALLOC_TYPES:
+        for A in ALLOC_ALIGNS:
+            if A < al:
+                continue
+            if tier == 'quick' and A not in (al, 16, 32, 4096):
+                continue
+            tag = '%s_a%d' % (tn.replace('std::', '').replace('_t', '').replace('avel_verif_', ''), A)
+            nm = 'w_alloc_roundtrip_' + tag
+            line = ('VW void* %s(std::size_t n) { avel::Aligned_allocator<%s, %d> a; %s* p = a.allocate(n); avel_verif_havoc(p, n * sizeof(%s)); '
+                    'a.deallocate(p, n); return p; }' % (nm, tn, A, tn, tn))
+            out.append({'name': nm, 'line': line, 'op': 'alloc_roundtrip', 'type': tn, 'scalar': True, 'K': None, 'alloc': True,
+                        'elem': sz, 'align': A, 'params': ['std::size_t'], 'rtype': 'void*'})
+    return out
+
+
+def alloc_task(task):
+    import traceback, resource
+    import z3
+    from . import symex, intrin, harness, sym, runner, solve
+    from .sym import b_and, b_or, b_not, M
+    t0 = time.time()
+    meta = task['meta']
+    res = {'name': meta['name'], 'op': meta['op'], 'type': meta['type'], 'cfg': task['cfg'], 'status': 'ok', 'time': 0.0,
+           'obligations': 0, 'discharged': 0, 'trivial': 0, 'by_symmetry': 0, 'nontrivial': 0, 'undecided': [], 'known_hits': [],
+           'violations': [], 'unconfirmed': []}
+    try:
+        mod = runner.get_mod(task['ll'])
+        cfg = configs.BY_NAME[task['cfg']]
+        A, sz = meta['align'], meta['elem']
+        n = z3.BitVec('n', 64)
+        asm = [z3.ULE(n, (1 << 40) // sz)]
+        state_info = {'allocs': [], 'frees': [], 'havoc': None}
+
+        def new_block(ex, st, size, align, via):
+            o = ex.new_obj(st, 'array', None, align, 'heap%d' % (len(st.extra.get('allocs', [])) + 1), writable=True, external=True)
+            o.bound = size
+            o.base = ex.fresh_base(st, o)
+            st.extra['allocs'] = st.extra.get('allocs', []) + [(o.id, size, via)]
+            return o
+
+        def s_malloc(ex, st, ins, args):
+            size = args[0][1][0][0]
+            o = new_block(ex, st, size, 16, 'malloc')       # glibc: alignof(max_align_t)
+            return [(symex.Ptr(o.id, 0), False)]
+
+        def s_aligned_alloc(ex, st, ins, args):
+            al = sym.nsimp(args[0][1][0][0])
+            size = args[1][1][0][0]
+            if not isinstance(al, int):
+                raise symex.NotEncodable('symbolic alignment')
+            st.oblige('libc:aligned_alloc-contract', b_or(al & (al - 1) != 0, sym.ne(sym.urem(size, al, 64), 0, 64)),
+                      'aligned_alloc(%d, size): size must be a multiple of the alignment, alignment a power of two' % al)
+            o = new_block(ex, st, size, max(al, 16), 'aligned_alloc')
+            return [(symex.Ptr(o.id, 0), False)]
+
+        def s_posix_memalign(ex, st, ins, args):
+            dst = ex.resolve(st, args[0][1][0][0])
+            al = sym.nsimp(args[1][1][0][0])
+            size = args[2][1][0][0]
+            if not isinstance(al, int):
+                raise symex.NotEncodable('symbolic alignment')
+            st.oblige('libc:posix_memalign-contract', (al & (al - 1) != 0) or (al % 8 != 0), 'posix_memalign alignment %d must be a power of two multiple of sizeof(void*)' % al)
+            o = new_block(ex, st, size, max(al, 16), 'posix_memalign')
+            pp = symex.Ptr(o.id, 0)
+            ex.write_bytes(st, dst, [(('ptr', pp, i), False) for i in range(8)], True, 'posix_memalign')
+            return [(0, False)]
+
+        def s_free(ex, st, ins, args):
+            v = args[0][1][0][0]
+            if isinstance(v, int) and v == 0:
+                return None
+            try:
+                p = ex.resolve(st, v)
+            except symex.NotEncodable:
+                st.oblige('heap:invalid-free', True, 'free() of a pointer that is not derived from an allocation')
+                return None
+            if p.obj == 0:
+                return None
+            o = st.objs[p.obj]
+            heap_ids = [a[0] for a in st.extra.get('allocs', [])]
+            if p.obj not in heap_ids:
+                st.oblige('heap:invalid-free', True, 'free() of non-heap memory')
+                return None
+            st.oblige('heap:invalid-free', sym.ne(p.off, 0, 64), 'free() of a pointer into the middle of a block (offset != 0)')
+            st.oblige('heap:double-free', o.freed, 'double free')
+            o2 = st.wobj(p.obj)
+            o2.freed = True
+            st.extra['frees'] = st.extra.get('frees', []) + [p.obj]
+            return None
+
+        def s_havoc(ex, st, ins, args):
+            p = ex.resolve(st, args[0][1][0][0])
+            ln = args[1][1][0][0]
+            st.extra['user'] = (p, ln)
+            o = st.wobj(p.obj)
+            if o.kind != 'array':
+                raise symex.NotEncodable('havoc of non-heap object')
+            harr = z3.Array('havoc_%d' % p.obj, z3.BitVecSort(64), z3.BitVecSort(8))
+            # flush concrete overlay into the log first so that ordering is preserved
+            for a_, c_ in sorted(o.overlay.items()):
+                o.wlog.append((a_, [c_], True))
+            o.overlay = {}
+            o.wlog.append((p.off, ('havoc', ln, harr), True))
+            # the user may write the whole range: it must be inside the block
+            st.oblige('alloc:user-range-outside-block', b_not(b_and(sym.ule(p.off, o.bound, 64), sym.ule(sym.add(p.off, ln, 64), o.bound, 64),
+                                                                 sym.ule(ln, o.bound, 64))),
+                      'the n*sizeof(T) bytes handed to the caller are not inside the malloc block')
+            return None
+
+        stubs = {'malloc': s_malloc, 'aligned_alloc': s_aligned_alloc, 'posix_memalign': s_posix_memalign, 'free': s_free,
+                 'avel_verif_havoc': s_havoc}
+        ex = symex.Executor(mod, intrin.Intrinsics(), assumptions=asm, stubs=stubs)
+        rm, _ = harness.make_rm(None)
+        st, mx_asm = harness.init_state(ex, rm)
+        asm += mx_asm
+        finals = ex.run(meta['name'], [[(n, False)]], st)
+        asm = ex.assumptions
+        res['paths'] = len(finals)
+        res['steps'] = ex.total_steps
+        res['intrinsics'] = sorted(ex.intrinsics_used)
+        res['callees'] = sorted(ex.called)
+        obls = []
+        for f in finals:
+            pc = b_and(*f.pc)
+            for cat, bad, info, pcsnap in f.obls:
+                obls.append((cat, b_and(b_and(*pcsnap), bad), info))
+            user = f.extra.get('user')
+            allocs = f.extra.get('allocs', [])
+            frees = f.extra.get('frees', [])
+            # returned pointer: aligned, inside a block
+            rv, rp = f.ret[0]
+            if not isinstance(rv, symex.Ptr):
+                tmp = symex.State()
+                tmp.objs = f.objs
+                try:
+                    rv = ex.resolve(tmp, rv)
+                except symex.NotEncodable:
+                    pass
+            if isinstance(rv, symex.Ptr) and rv.obj != 0:
+                o = f.objs[rv.obj]
+                if o.base is None:
+                    raise symex.NotEncodable('no address for the block')
+                addr = sym.add(o.base, rv.off, 64)
+                obls.append(('alloc:misaligned-result', b_and(pc, sym.ne(sym.and_(addr, A - 1, 64), 0, 64)), 'allocate(n) returned a pointer that is not %d-aligned' % A))
+            else:
+                obls.append(('alloc:null-or-foreign-result', pc, 'allocate(n) did not return a pointer into a fresh block'))
+            # bookkeeping writes must not overlap the user's range
+            if user is not None:
+                up, ulen = user
+                for e in f.log:
+                    if e['kind'] != 'W' or e['obj'] != up.obj or e['what'] == 'havoc':
+                        continue
+                    d1 = sym.sub(e['off'], up.off, 64)
+                    inter = b_and(sym.ult(d1, ulen, 64)) if True else False
+                    d2 = sym.sub(up.off, e['off'], 64)
+                    inter = b_or(sym.ult(d1, ulen, 64), b_and(sym.ult(d2, e['n'], 64), sym.ne(ulen, 0, 64)))
+                    obls.append(('alloc:bookkeeping-overlaps-user-range', b_and(b_and(*e['pc']), e['guard'], inter),
+                                 'allocator bookkeeping write of %d bytes overlaps the caller\'s bytes' % e['n']))
+            # every block allocated is freed exactly once (no leak)
+            for oid, size, via in allocs:
+                if oid not in frees:
+                    obls.append(('heap:leak', pc, 'block obtained by %s is not released by deallocate' % via))
+        pf = solve.Portfolio(z3_ms=8000, fallback_s=20)
+        seen_v = set()
+        for cat, fml, info in obls:
+            res['obligations'] += 1
+            r, m, by = pf.check(asm, fml)
+            if r == 'unsat':
+                res['discharged'] += 1
+                if by == 'trivial':
+                    res['trivial'] += 1
+                else:
+                    res['nontrivial'] += 1
+            elif r == 'sat':
+                if cat in seen_v:
+                    continue
+                seen_v.add(cat)
+                # prefer a natively replayable size (the claim itself is for every n)
+                r2, m2, by2 = pf.check(asm + [z3.ULE(n, 4096)], fml)
+                if r2 == 'sat':
+                    m = m2
+                rec = alloc_replay(task, meta, cfg, cat, info, m, by)
+                if rec['confirmed']:
+                    ent = known.match(task.get('known', []), task['prop'], meta, cfg, cat)
+                    if ent is None:
+                        res['violations'].append(rec)
+                    else:
+                        rec['known_id'] = ent['id']
+                        res['known_hits'].append(rec)
+                else:
+                    res['unconfirmed'].append(rec)
+            else:
+                res['undecided'].append({'kind': cat, 'desc': info})
+        res['solver_time'] = pf.stats.time
+        res['decided_by'] = pf.stats.decided_by
+        if res['violations']:
+            res['status'] = 'violation'
+        elif res['undecided']:
+            res['status'] = 'undecided'
+        elif res['known_hits']:
+            res['status'] = 'known'
+    except symex.NotEncodable as e:
+        res['status'] = 'not-encodable'
+        res['detail'] = str(e)[:300]
+    except Exception:
+        res['status'] = 'crash'
+        res['detail'] = traceback.format_exc()[-1800:]
+    res['time'] = time.time() - t0
+    res['rss_mb'] = resource.getrusage(resource.RUSAGE_SELF).ru_maxrss // 1024
+    return res
+
+
+ALLOC_REPLAY = r'''
+#include "verif_alloc.hpp"
+#include <cstdio>
+#include <cstring>
+#include <cstdlib>
+#include <vector>
+extern "C" void avel_verif_havoc(void* p, std::size_t bytes) { std::memset(p, 0xA5, bytes); }
+int main() {
+    using T = %(tn)s;
+    constexpr std::size_t A = %(A)d;
+    avel::Aligned_allocator<T, A> a;
+    std::vector<std::size_t> ns = {%(n)dull};
+    std::vector<std::pair<T*, std::size_t>> live;
+    for (std::size_t n : ns) {
+        if (n > (1u << 22)) continue;
+        T* p = a.allocate(n);
+        if (!p && n) { std::printf("NULL for n=%%zu\n", n); return 5; }
+        if (reinterpret_cast<std::uintptr_t>(p) %% A) { std::printf("MISALIGNED n=%%zu\n", n); return 6; }
+        std::memset(static_cast<void*>(p), 0x5A, n * sizeof(T));
+        live.push_back({p, n});
+    }
+    for (auto& pn : live) {
+        auto* b = reinterpret_cast<unsigned char*>(pn.first);
+        for (std::size_t i = 0; i < pn.second * sizeof(T); ++i) if (b[i] != 0x5A) { std::printf("CORRUPTED\n"); return 7; }
+        a.deallocate(pn.first, pn.second);
+    }
+    std::printf("OK\n");
+    return 0;
+}
+'''
+
+
+def alloc_replay(task, meta, cfg, cat, info, model, by):
+    """native replay under UBSan + ASan: allocate/deallocate with the solver's n (plus a fixed ladder), user bytes fully written"""
+    import hashlib, json, subprocess
+    from . import replay
+    nn = int(model.get('n', 0))
+    h = hashlib.sha1(json.dumps([meta['name'], cfg.name, nn, cat]).encode()).hexdigest()[:10]
+    outdir = os.path.join(replay.REPLAYS, task['prop'], '%s.%s.%s' % (meta['name'], cfg.name, h))
+    os.makedirs(outdir, exist_ok=True)
+    open(os.path.join(outdir, 'verif_alloc.hpp'), 'w').write(ALLOC_HDR)
+    src = os.path.join(outdir, 'repro.cpp')
+    open(src, 'w').write(ALLOC_REPLAY % {'tn': meta['type'], 'A': meta['align'], 'n': min(nn, 1 << 20)})
+    exe = os.path.join(outdir, 'repro.bin')
+    cmd = ['clang++-14'] + cfg.flags() + ['-O0', '-g', '-w', '-fsanitize=undefined,address', '-fno-sanitize-recover=all', '-I' + outdir,
+                                          '-I' + build.repo_include(), src, '-o', exe]
+    rr = subprocess.run(cmd, stdout=subprocess.PIPE, stderr=subprocess.PIPE, universal_newlines=True)
+    confirmed = False
+    detail = {}
+    if rr.returncode != 0:
+        detail['compile'] = rr.stderr[-400:]
+    else:
+        try:
+            r2 = subprocess.run([exe], stdout=subprocess.PIPE, stderr=subprocess.PIPE, universal_newlines=True, timeout=120, preexec_fn=replay._unlimit)
+            out, err, code = r2.stdout, r2.stderr, r2.returncode
+        except subprocess.TimeoutExpired:
+            out, err, code = '', 'timeout', -1
+        confirmed = code != 0
+        lines = [l for l in err.split('\n') if 'runtime error' in l or 'ERROR: AddressSanitizer' in l]
+        detail['sanitizers'] = (lines[0][-300:] if lines else out.strip()[:200])
+        try:
+            os.unlink(exe)
+        except OSError:
+            pass
+    sh = os.path.join(outdir, 'run.sh')
+    open(sh, 'w').write('#!/bin/sh\ncd "%s" && %s && ./repro.bin; rc=$?; rm -f repro.bin; [ $rc -eq 0 ] && exit 0; exit 1\n'
+                        % (outdir, ' '.join(cmd[:-3] + ['repro.cpp', '-o', 'repro.bin'])))
+    os.chmod(sh, 0o755)
+    return {'kind': cat, 'desc': info, 'inputs': ['n=%d' % nn, 'T=%s' % meta['type'], 'A=%d' % meta['align']], 'rm': 'RNE', 'replay': sh,
+            'confirmed': confirmed, 'detail': detail, 'solver': by}
+
+
+def allocator(prop, tier, seed, a):
+    from . import check, runner
+    t0 = time.time()
+    budget = dict(check.BUDGET[tier])
+    ladder = configs.check_ladder(build.REPO)
+    cfgs = [configs.Config('sse2', ['AVEL_SSE2']), configs.Config('none_cxx17', [], std='c++17'), configs.Config('none_cxx11', [], std='c++11')]
+    for c in cfgs:
+        configs.BY_NAME[c.name] = c
+    if a.configs:
+        cfgs = [c for c in cfgs if c.name in a.configs.split(',')]
+    kf = known.load()
+    tasks, compile_info, dropped_all = [], [], []
+    os.makedirs(build.BUILD, exist_ok=True)
+    open(os.path.join(build.HERE, 'cxx', 'verif_alloc.hpp'), 'w').write(ALLOC_HDR)
+    for cfg in cfgs:
+        ws = alloc_wrappers(tier)
+        if a.types:
+            ws = [w for w in ws if re.search(a.types, w['name'])]
+        tc = time.time()
+        try:
+            text, ok, dropped, cmd, llpath = build.compile_ir(cfg, ws, prop, extra_includes=['"verif_alloc.hpp"'])
+        except RuntimeError as e:
+            compile_info.append({'config': cfg.name, 'flags': cfg.flags(), 'wrappers': 0, 'dropped': len(ws), 'error': str(e)[-600:]})
+            tasks.append({'meta': {'name': 'compile_' + cfg.name, 'op': 'compile', 'type': '-', 'line': '#include <avel/Aligned_allocator.hpp>'},
+                          'cfg': cfg.name, 'prop': prop, 'handler': 'avelverif.special.alloc_compile_failure', 'error': str(e)[-1500:], 'also': [],
+                          'known': kf})
+            continue
+        mod = llir.parse_module(text)
+        compile_info.append({'config': cfg.name, 'flags': cfg.flags(), 'wrappers': len(ok), 'dropped': len(dropped), 'compile_s': round(time.time() - tc, 2)})
+        for w, err in dropped:
+            dropped_all.append({'config': cfg.name, 'wrapper': w['name'], 'error': err[:200]})
+        for w in ok:
+            tasks.append({'ll': llpath, 'meta': w, 'cfg': cfg.name, 'prop': prop, 'budget': budget, 'known': kf, 'ir_hash': check.fn_hash(mod, w['name']),
+                          'also': [], 'handler': 'avelverif.special.alloc_task'})
+    print('[%s %s] %d implementations, %d (T, A) instantiations to decide' % (prop, tier, len(compile_info), len(tasks)), flush=True)
+
+    def progress(done, total, r):
+        if a.verbose or r.get('status') not in ('ok', 'known'):
+            print('  [%d/%d] %-44s %-10s %-13s %.1fs %s' % (done, total, r.get('name'), r.get('cfg'), r.get('status'), r.get('time', 0),
+                                                            (r.get('detail') or '')[:300].replace('\n', ' ')), flush=True)
+    results = runner.run_pool(tasks, nproc=a.jobs, hard_s=600, progress=progress)
+    extra = {'bounds': 'one symbolic step per operation: allocate(n); caller overwrites all n*sizeof(T) bytes with arbitrary data; deallocate(p, n). '
+                       'n symbolic with n*sizeof(T) <= 2^40. The allocator is stateless (is_always_equal), libc returns disjoint blocks, so containment of '
+                       'the user range and of all bookkeeping inside the fresh block gives non-overlap for every interleaving of calls.',
+             'stubs': 'malloc / aligned_alloc / posix_memalign return a fresh block of exactly the requested size at an arbitrary suitably aligned address '
+                      '(never NULL: allocation failure is out of scope); free(q) requires q to be the base of a live block',
+             'outside_claim': 'std::vector growth policy (heap-growing containers are out of reach here), OOM, the libc allocator itself'}
+    return check.finish(prop, tier, seed, a, t0, tasks, results, compile_info, dropped_all, 0, ladder, kf, extra)
+
+
+def alloc_compile_failure(task):
+    """an implementation that does not compile is reported as a (reproduced) violation: the compiler is the native replay"""
+    import hashlib
+    from . import replay
+    meta = task['meta']
+    cfg = configs.BY_NAME.get(task['cfg'])
+    outdir = os.path.join(replay.REPLAYS, task['prop'], 'compile.%s' % task['cfg'])
+    os.makedirs(outdir, exist_ok=True)
+    open(os.path.join(outdir, 'repro.cpp'), 'w').write('#include <avel/Aligned_allocator.hpp>\nint main() { avel::Aligned_allocator<int, 64> a; int* p = a.allocate(3); a.deallocate(p, 3); }\n')
+    sh = os.path.join(outdir, 'run.sh')
+    flags = ' '.join(cfg.flags()) if cfg else ''
+    open(sh, 'w').write('#!/bin/sh\ncd "%s" && clang++-14 %s -I%s repro.cpp -o repro.bin 2>&1 | tail -5; [ -x repro.bin ] && { rm -f repro.bin; exit 0; }; exit 1\n'
+                        % (outdir, flags, build.repo_include()))
+    os.chmod(sh, 0o755)
+    rec = {'kind': 'compile-failure', 'desc': 'Aligned_allocator does not compile in this implementation', 'inputs': [task['cfg']], 'rm': 'RNE',
+           'replay': sh, 'confirmed': True, 'detail': {'clang++-14': task['error'][-500:]}, 'solver': 'compiler'}
+    res = {'name': meta['name'], 'op': 'compile', 'type': '-', 'cfg': task['cfg'], 'status': 'violation', 'time': 0.0, 'obligations': 1, 'discharged': 0,
+           'trivial': 0, 'by_symmetry': 0, 'nontrivial': 1, 'undecided': [], 'known_hits': [], 'violations': [], 'unconfirmed': []}
+    ent = known.match(task.get('known', []), task['prop'], meta, cfg, 'compile-failure') if cfg else None
+    if ent is None:
+        res['violations'].append(rec)
+    else:
+        rec['known_id'] = ent['id']
+        res['known_hits'].append(rec)
+        res['status'] = 'known'
+    return res
+
+
+HANDLERS['C18'] = allocator
+
+
+# ------------------------------------------------------------------------------------------------ C19 macro logic
+def macro_logic(prop, tier, seed, a):
+    """only the clauses of C19 that have an input space (subsets of feature macros / compiler flags) are decided here"""
+    import json
+    from . import check, macrologic, replay
+    t0 = time.time()
+    kf = known.load()
+    obls, stats = macrologic.check_all(tier, seed)
+    violations, known_hits, unconfirmed, undecided = [], [], [], []
+
+    class _C:
+        macros = set()
+        name = 'macro-model'
+    for rec in obls:
+        if rec['status'] == 'undecided':
+            undecided.append({'wrapper': rec['name'], 'config': 'all macro subsets', 'what': [{'kind': rec['kind'], 'desc': rec['what']}]})
+        if rec['status'] != 'violated':
+            continue
+        confirmed, detail, sh, flags = macrologic.replay_macro_cex(prop, rec)
+        r = {'kind': 'macro:' + rec['kind'], 'desc': rec['what'], 'inputs': [' '.join(flags)], 'rm': '-', 'replay': sh, 'confirmed': confirmed,
+             'detail': {'clang++-14': detail}, 'wrapper': rec['name'], 'config': ' '.join(rec.get('cex_macros', [])), 'configs': [' '.join(rec.get('cex_macros', []))]}
+        if not confirmed:
+            unconfirmed.append(r)
+            continue
+        ent = known.match(kf, prop, {'op': rec['name'], 'type': '-'}, _C, r['kind'])
+        if ent is None:
+            violations.append(r)
+        else:
+            r['known_id'] = ent['id']
+            known_hits.append(r)
+    for ent in kf:
+        hs = [h for h in known_hits if h['known_id'] == ent['id']]
+        if hs:
+            print('KNOWN-FINDING: property=%s %s [%s; %d clause(s), e.g. %s with %s]' % (prop, ent['what'], ent['id'], len(hs), hs[0]['wrapper'], hs[0]['inputs']), flush=True)
+    for v in violations:
+        print('VIOLATION property=%s replay=%s' % (prop, v['replay']))
+        print('    %s: %s  macros=%s  %s' % (v['wrapper'], v['desc'], v['config'], str(v['detail'])[:300]))
+    n = len(obls)
+    dis = sum(1 for o in obls if o['status'] == 'discharged')
+    wall = time.time() - t0
+    print('[%s %s] macro-logic obligations=%d discharged=%d undecided=%d unconfirmed-cex=%d known=%d violations=%d wall=%.0fs'
+          % (prop, tier, n, dis, len(undecided), len(unconfirmed), len(known_hits), len(violations), wall), flush=True)
+    if not a.no_evidence:
+        os.makedirs(check.EVIDENCE, exist_ok=True)
+        by_kind = {}
+        for o in obls:
+            by_kind.setdefault(o['kind'], [0, 0])
+            by_kind[o['kind']][0] += 1
+            by_kind[o['kind']][1] += o['status'] == 'discharged'
+        cov = {
+            'explanation': 'Partial claim. Decided by z3 over ALL 2^%d subsets of the user-nameable x86 feature macros / compiler flags, on a symbolic model of the '
+                           'preprocessor conditionals of Capabilities.hpp, Detect_capabilities.hpp, Verify_capabilities.hpp, Sizes.hpp and the include blocks of '
+                           'Vectors.hpp (re-parsed from /repo on every run): (P1) naming one macro defines every macro that documentation and compiler both '
+                           'imply; (P2) no static_assert(false) arm is reachable when every named macro comes with its documented flag, nor under '
+                           'AVEL_AUTO_DETECT; (P3) AVEL_AUTO_DETECT provides the same vector headers as naming every enabled macro; (P4) each vector '
+                           'header is included exactly under its documented macro; (P5) natural_width_*/max_width_* name provided types and max_width is '
+                           'the widest. NOT decided here (no input space for a solver; see DESIGN.md section 10): that every configuration compiles, '
+                           'trivial copyability / sizeof of the vector classes, and that every operation is declared, defined and linkable for every width.'
+                           % stats['flags'],
+            'obligations': n, 'discharged': dis, 'evaluations': n, 'distinct_nontrivial': n,
+            'rule': 'one obligation per (clause, macro | static_assert arm | vector header | width constant); each is a z3 query over all macro subsets',
+            'by_clause_kind': {k: {'obligations': v[0], 'discharged': v[1]} for k, v in by_kind.items()},
+            'samples': [o for o in obls[:3]] + [o for o in obls if o['status'] != 'discharged'][:5],
+            'compiler_model': {'flags': stats['flags'], 'predefines_tested': stats['predefines_tested'], 'additivity_checks': stats['additivity_checks'],
+                               'additivity_mismatches': stats['additivity_mismatches'], 'opaque_conditions': stats['opaque_conditions']},
+            'static_asserts_modelled': stats['static_asserts_modelled'], 'vector_headers': stats['vector_headers'], 'width_constants': stats['constants'],
+            'known_findings_hit': sorted({h['known_id'] for h in known_hits}),
+            'unconfirmed': [{k: u[k] for k in ('wrapper', 'desc', 'inputs', 'detail')} for u in unconfirmed],
+            'undecided': undecided, 'exhaustive': True,
+            'checker_cmd': 'bin/avelcheck --property C19 --tier %s' % tier,
+        }
+        ev = {'property_id': prop, 'tier': tier, 'seed': seed, 'level': 'other', 'coverage': cov,
+              'assumptions': ['compiler feature implication is additive over flags (spot-checked against clang on flag pairs every run)',
+                              'clang++-14 predefines stand for "the compiler"; GCC predefines are not modelled',
+                              'ARM / AVX10 / MSVC / ICPX arms are outside the model (x86, clang)'],
+              'wall_s': round(wall, 1), 'violations': len(violations)}
+        json.dump(ev, open(os.path.join(check.EVIDENCE, prop + '.json'), 'w'), indent=1, default=str)
+    return 1 if violations else 0
+
+
+HANDLERS['C19'] = macro_logic
